@@ -27,6 +27,8 @@ type cfgSpec struct {
 	servers [][]int // address indices per HTTP server
 	fail    bool    // "!": the config's admin.config.load module cannot be provisioned: every app starts, then the load is rejected
 	admin   int     // address of the admin endpoint (adm0 / adm1), -1: disabled
+	busy    bool    // derived: the config binds a unix socket path that a listener of another network kind holds
+	//                (u0 / v0): Listen refuses, the HTTP app's Start fails and the load is rejected
 }
 
 func (c cfgSpec) has(a int) bool {
@@ -184,6 +186,7 @@ type runner struct {
 	traffic    trafficStats
 	sdMu       sync.Mutex
 	sdSeen     map[int]map[int]bool // load -> generations seen answering with {http.shutting_down} true
+	abortWin   atomic.Int64         // index of the busy load in progress (its HTTP app's Start is refused and aborted), -1: none
 	admEpoch   atomic.Int64         // odd while a replaced admin endpoint may be shutting down
 	admAddr    int                  // admin endpoint in effect: its address (-1: none) and the load that started it
 	admGen     int
